@@ -54,7 +54,7 @@ def arena_line(model, align):
 
 def main():
     ck = Check("C12", "translation_validation")
-    ck.lean_stage(["VelaVerif.Props.C12", "VelaVerif.Props.C12LiveRange"])
+    ck.lean_stage(["VelaVerif.Props.C12", "VelaVerif.Props.C12LiveRange", "VelaVerif.Props.C12InPlace"])
     n = 6000 if ck.thorough else 320
     profiles = ["cpu", "mixed", "pattern", "cascade", "weights", "pattern", "cpu", "lut", "pattern", "elementwise"]
     pipeline.load_vela()
